@@ -84,6 +84,18 @@ pub fn generate(g: &mut Gen) {
             g.push(format!("obj.loss {} {} {} {}", o, clamp_tok(c), qt(&to3(&p)), qt(&to3(&t))), Tol::Tight, &format!("{}/near-equal/3d", o), true);
         }
     }
+    // prediction and target identical in EVERY element (loss exactly 0) under clamp intervals that do and do not contain
+    // zero: every gradient component is still the unclamped value limited to the interval
+    for o in OBJS.iter() {
+        let probabilistic = matches!(*o, "ce" | "bce" | "kl");
+        let v: Vec<f32> = if probabilistic { vec![0.25, 0.5, 0.125, 0.125] } else { vec![0.75, -1.5, 0.0, 3.0] };
+        for c in [None, Some((0.25f32, 0.75f32)), Some((-0.75, -0.25)), Some((-0.5, 0.5)), Some((0.0, 1.0)), Some((-1.0, 0.0))] {
+            let t1 = Tensor::single(v.clone());
+            g.push(format!("obj.loss {} {} {} {}", o, clamp_tok(c), qt(&t1), qt(&t1)), Tol::Tight, &format!("{}/identical-pair/1d", o), true);
+            let t3 = Tensor::triple(vec![v.chunks(2).map(|r| r.to_vec()).collect()]);
+            g.push(format!("obj.loss {} {} {} {}", o, clamp_tok(c), qt(&t3), qt(&t3)), Tol::Tight, &format!("{}/identical-pair/3d", o), true);
+        }
+    }
     // large operands a small distance apart (the loss is small against the operands: computed from the differences,
     // it is accurate relative to ITSELF)
     for o in ["ae", "mae", "mse", "rmse"] {
